@@ -99,3 +99,50 @@ func VerifC17_ThreeCallers() {
 	sym.Assert(!w.initExited, "concurrent calls desynchronised the protocol")
 	sym.Assert(w.host.Ping() == nil, "the environment is unusable after concurrent calls")
 }
+
+// VerifC17_OpDuringExecve: while one goroutine runs a program in an environment, another
+// performs any other operation on the same environment (Open, Delete, Symlink, Reset): the
+// run keeps its genuine verdict (the other call's command must never be taken for the run's
+// kill message), the other call gets its own answer, the environment stays usable.
+func VerifC17_OpDuringExecve() {
+	w := newWorld()
+	w.onlyRun = true
+	w.quietFS = true
+	var res runner.Result
+	var errB error
+	doneA, doneB := false, false
+	opB := sym.Choose("opB", 4)
+	go func() {
+		res = w.host.Execve(kern.Background(), ExecveParam{Args: []string{"/bin/prog"}, Env: []string{"A=1"}})
+		doneA = true
+	}()
+	go func() {
+		switch opB {
+		case 0:
+			var r []OpenCmdResult
+			r, errB = w.host.Open([]OpenCmd{{Path: "/w/a"}})
+			for _, x := range r {
+				if x.File != nil {
+					x.File.Close()
+				}
+			}
+		case 1:
+			errB = w.host.Delete("/w/a")
+		case 2:
+			_, errB = w.host.Symlink([]SymbolicLink{{LinkPath: "/w/l", Target: "/w/a"}})
+		case 3:
+			errB = w.host.Reset()
+		}
+		doneB = true
+	}()
+	sym.WaitOthers()
+	sym.Assert(doneA && doneB, "a concurrent call did not return")
+	sym.Reach("both-returned")
+	if pr := w.prog; pr != nil && pr.started {
+		sym.Reach("program-ran")
+		sym.Assert(res.Status == refVerdict(pr.status), "a concurrent call changed the verdict of a run in the same environment")
+	}
+	sym.Assert(errB == nil, "the concurrent call failed although the container answers")
+	sym.Assert(!w.initExited, "concurrent calls desynchronised the protocol")
+	sym.Assert(w.host.Ping() == nil, "the environment is unusable after concurrent calls")
+}
